@@ -66,6 +66,7 @@ func init() {
 }
 
 func runC17(c *Ctx, r *Report) {
+	importFoundation(c, r, "C17", "driver-options")
 	importFoundation(c, r, "C17", "read-loop")
 	importFoundation(c, r, "C17", "priv-steps")
 	r.Rule("C17/variant-merged-first", "NewPlatformVariant merges the variant into the platform before the driver is built from it", 1)
